@@ -764,6 +764,11 @@ where
             });
             this.wait().await;
 
+            // The flushers must not continue the blobs they have open: the next flush would rewrite a blob index
+            // that still lists the entries destroyed here, and recovery would bring them back.
+            this.inner.flushers.iter().for_each(|flusher| flusher.reset());
+            this.wait().await;
+
             // Clear indices.
             //
             // This step must perform after the latest writer finished,
